@@ -1,4 +1,8 @@
 import Abyss.Props.C08
+import Abyss.Props.C08Gen
+#print axioms Abyss.C08_generated_update_local
+#print axioms Abyss.C08_generated_delete_local
+#print axioms Abyss.Spec.run_append
 #print axioms Abyss.C08_update_local
 #print axioms Abyss.C08_delete_local
 #print axioms Abyss.Store.relink_spec
